@@ -110,7 +110,14 @@ class C17(Prop):
             {"kind": "crop", "axis": {"stream": "A", "n": 10, "step": Fraction(1), "start": Fraction(0), "attr": True}, "fill": Fraction(0),
              "start": Fraction(0), "stop": Fraction(5) + Fraction(1, 10**6), "right_closed": False, "left_closed": True},
         ]
-        return fixed + [self._case(rng) for _ in range(n)]
+        # every (length, width, position) for short axes: the off-by-one corners (width = n-1, n+1, even/odd centre)
+        sweep = []
+        for nn in range(1, 13 if tier == "quick" else 25):
+            ax = {"stream": "A", "n": nn, "step": Fraction(rng.choice([1, 2, 3]), rng.choice([1, 2, 4])), "start": Fraction(rng.randint(-8, 8), 2), "attr": nn < 3 or rng.random() < 0.5}
+            for w in range(1, nn + 4):
+                for pos in ("start", "center", "end"):
+                    sweep.append({"kind": "adjust", "axis": ax, "fill": Fraction(0), "width": w, "pos": pos})
+        return fixed + sweep + [self._case(rng) for _ in range(n)]
 
     # ------------------------------------------------------------------ implementation
     def _build(self, ax):
